@@ -328,7 +328,7 @@ def query_cases(draw, tier="quick", big=False):
     cloud = draw(P.clouds(r_km, None, n_sets=2, metric=kind, allow_nan=False,
                           allow_far=True, tile=tile, sizes=sizes))
     b, q = cloud["sets"]
-    if draw(st.sampled_from([False] * 7 + [True])):
+    if draw(st.sampled_from([False] * 7 + [True])) and len(b["lat"]) <= 1500:
         q = b          # query the build points themselves
     n = len(b["lat"])
     config = draw(configs(n, radius, metric))
